@@ -18,6 +18,8 @@ def grammar_cases(draw, methods=None, modes=None, max_batch=6):
         "jsonclass": draw(st.booleans()),
         "mode": draw(st.sampled_from(modes or MODES)),
         "ascii": draw(st.booleans()),
+        # what the failing callable raises (index into refmodel.exception_factories())
+        "exc": draw(st.sampled_from([0, 0, 0, 1, 2, 3, 4, 5, 6, 7, 8])),
         # one case in three runs on a server whose Config carries a handler table
         "handlers": draw(st.one_of(st.none(), st.none(), st.sampled_from(sorted(refmodel.HANDLER_TABLES)))),
     }
@@ -56,12 +58,15 @@ def exhaustive_damage_cases(tier):
 def run_case(case):
     text = refmodel.render_body(case["body"], case.get("ascii", True))
     out, exp, registry, problems = refmodel.run_body(
-        text, case["version"], case["jsonclass"], case["mode"], handlers=case.get("handlers"))
+        text, case["version"], case["jsonclass"], case["mode"], handlers=case.get("handlers"),
+        exc_factory=refmodel.exception_factories()[case.get("exc", 0)])
     return text, out, exp, registry, problems
 
 
 def classify(case, text, exp):
     classes = ["v%.1f" % case["version"], "mode:" + case["mode"], "body:" + case["body"][0]]
+    if case.get("exc") and any(k.startswith("call:-32603") or k == "notification:-32603" for k in exp.kinds):
+        classes.append("raises:" + type(refmodel.exception_factories()[case["exc"]]()).__name__)
     if case.get("handlers") and case["jsonclass"]:
         classes.append("handler-table:" + case["handlers"])
     kinds = set(k.split(":")[0] + (":" + k.split(":")[1] if k.startswith(("call", "invalid")) else "") for k in exp.kinds)
